@@ -130,4 +130,254 @@ theorem count_filter_map_fst (l : List (Nat × Nat)) (i j : Nat) :
     by_cases h2 : p2 = j <;> by_cases h1 : p1 = i <;>
       simp [ih, h1, h2]
 
+/-! ### small facts about `bincount` and `repeat` -/
+
+theorem length_filter_lt_succ (xs : List Nat) (T : Nat) :
+    (xs.filter (· < T + 1)).length = (xs.filter (· < T)).length + xs.count T := by
+  induction xs with
+  | nil => rfl
+  | cons x xs ih =>
+    simp only [List.filter_cons, List.count_cons, beq_iff_eq]
+    by_cases h1 : x < T
+    · have h2 : x < T + 1 := by omega
+      have h3 : ¬ x = T := by omega
+      simp [h1, h2, h3, ih]
+      omega
+    · by_cases h3 : x = T
+      · subst h3
+        simp [ih]
+        omega
+      · have h2 : ¬ x < T + 1 := by omega
+        simp [h1, h2, h3, ih]
+
+theorem sum_bincount (xs : List Nat) (T : Nat) :
+    ((List.range T).map (fun v => xs.count v)).sum = (xs.filter (· < T)).length := by
+  induction T with
+  | zero => simp
+  | succ T ih =>
+    rw [List.range_succ, List.map_append, List.sum_append, ih, length_filter_lt_succ]
+    simp
+
+theorem sum_bincount_of_lt (xs : List Nat) (T : Nat) (h : ∀ x ∈ xs, x < T) :
+    ((List.range T).map (fun v => xs.count v)).sum = xs.length := by
+  rw [sum_bincount, List.filter_eq_self.2 (fun x hx => by simpa using h x hx)]
+
+theorem mem_repeatP {α : Type} (ks : List Nat) (xs : List α) (y : α) (h : y ∈ repeatP ks xs) :
+    y ∈ xs := by
+  induction ks generalizing xs with
+  | nil => simp [repeatP] at h
+  | cons k ks ih =>
+    cases xs with
+    | nil => simp [repeatP] at h
+    | cons x xs =>
+      simp only [repeatP, List.mem_append, List.mem_replicate] at h
+      rcases h with ⟨_, rfl⟩ | h
+      · simp
+      · exact List.mem_cons_of_mem _ (ih xs h)
+
+/-! ### converse -/
+
+/-- the value array `converse` produces: position `p` of the flat value array of `r` is labelled
+    with the number of the segment it lies in, and the labels are listed in the order in which
+    `argsort` arranges the values -/
+def converseValues (B : Backend) (r : IC FinFun) : List Nat :=
+  (B.argsort r.values.table).map
+    (fun p => (repeatP r.sources.table (List.range r.len)).getD p 0)
+
+theorem wf_unpack' (r : IC FinFun) (hr : r.wf = true) :
+    r.valid = true ∧ r.sources.WF ∧ r.values.WF := by
+  simp only [IC.wf, Bool.and_eq_true] at hr
+  exact ⟨hr.1.1, (FinFun.wf_iff _).1 hr.1.2, (FinFun.wf_iff _).1 hr.2⟩
+
+theorem wf_pack (r : IC FinFun) (h1 : r.valid = true) (h2 : r.sources.WF) (h3 : r.values.WF) :
+    r.wf = true := by
+  simp only [IC.wf, Bool.and_eq_true]
+  exact ⟨⟨h1, (FinFun.wf_iff _).2 h2⟩, (FinFun.wf_iff _).2 h3⟩
+
+theorem unsorted_length (r : IC FinFun) (hv : r.valid = true) :
+    (repeatP r.sources.table (List.range r.len)).length = r.values.table.length := by
+  rw [repeatP_length _ _ (by simp [IC.len, FinFun.source])]
+  exact ((IC.valid_iff r).1 hv).2
+
+theorem converseValues_lt (B : Backend) (hB : B.Lawful) (r : IC FinFun) (hv : r.valid = true) :
+    ∀ x ∈ converseValues B r, x < r.len := by
+  intro x hx
+  obtain ⟨p, hp, rfl⟩ := List.mem_map.1 hx
+  have hp' : p < r.values.table.length :=
+    List.mem_range.1 ((hB.argsort_perm r.values.table).mem_iff.1 hp)
+  rw [← unsorted_length r hv] at hp'
+  rw [List.getD_eq_getElem?_getD, List.getElem?_eq_getElem hp', Option.getD_some]
+  exact List.mem_range.1 (mem_repeatP _ _ _ (List.getElem_mem hp'))
+
+/-- closed form of `converse`: it returns for every well-formed argument -/
+theorem converse_eq (B : Backend) (hB : B.Lawful) (r : IC FinFun) (hr : r.wf = true) :
+    converse B r = .ok
+      ⟨⟨(List.range r.values.target).map (fun v => r.values.table.count v),
+          r.values.table.length + 1⟩,
+       ⟨converseValues B r, r.len⟩⟩ := by
+  obtain ⟨hv, _, hvw⟩ := wf_unpack' r hr
+  have hul : (repeatP r.sources.table (List.range r.sources.source)).length =
+      r.values.table.length := unsorted_length r hv
+  have hperm := hB.argsort_perm r.values.table
+  unfold converse
+  rw [FinFun.arange_zero, Res.ok_bind,
+    Prim.repeat_ok' _ _ (by simp [FinFun.source]), Res.ok_bind,
+    (sortBy_ok B _ _ hperm hul).1, Res.ok_bind, bincount_ok _ _ hvw, Res.ok_bind]
+  have hg : gatherP (repeatP r.sources.table (List.range r.sources.source))
+      (B.argsort r.values.table) = converseValues B r := by
+    apply FinFun.gatherP_eq_map
+    intro i hi
+    have hi' : i < r.values.table.length := List.mem_range.1 (hperm.mem_iff.1 hi)
+    rw [← hul] at hi'
+    show _ = some ((repeatP r.sources.table (List.range r.sources.source)).getD i 0)
+    rw [List.getD_eq_getElem?_getD, List.getElem?_eq_getElem hi']
+    rfl
+  rw [hg, IC.finfun_new_ok _ _ (by
+      intro x hx
+      obtain ⟨v, _, rfl⟩ := List.mem_map.1 hx
+      exact Nat.lt_succ_of_le List.count_le_length),
+    Res.unwrap_ok, Res.ok_bind, IC.finfun_new_ok _ _ (converseValues_lt B hB r hv),
+    Res.unwrap_ok, Res.ok_bind]
+  have hvalid : (⟨⟨(List.range r.values.target).map (fun v => r.values.table.count v),
+      r.values.table.length + 1⟩, ⟨converseValues B r, r.len⟩⟩ : IC FinFun).valid = true := by
+    apply IC.mk_valid
+    · simp only [sum_bincount_of_lt _ _ hvw]
+    · simp only [sum_bincount_of_lt _ _ hvw]
+      simp [converseValues, (hperm.length_eq)]
+  rw [IC.new, IC.validate_ok _ hvalid]
+  rfl
+
+theorem length_filter_key (key : β → Nat) (l : List β) (j : Nat) :
+    (l.filter (fun x => key x = j)).length = (l.map key).count j := by
+  induction l with
+  | nil => rfl
+  | cons x xs ih =>
+    by_cases h : key x = j <;> simp [h, ih]
+
+theorem range_map_getD_pair (u v : List Nat) (n : Nat) (hu : u.length = n) (hv : v.length = n) :
+    (List.range n).map (fun p => (u.getD p 0, v.getD p 0)) = u.zip v := by
+  apply List.ext_getElem
+  · simp [hu, hv]
+  · intro k h1 h2
+    simp only [List.length_map, List.length_range] at h1
+    simp [List.getD_eq_getElem?_getD, List.getElem?_eq_getElem (hu ▸ h1 : k < u.length),
+      List.getElem?_eq_getElem (hv ▸ h1 : k < v.length)]
+
+theorem count_flatMap_replicate (n a : Nat) (f : Nat → Nat) :
+    ((List.range n).flatMap (fun i => List.replicate (f i) i)).count a =
+      if a < n then f a else 0 := by
+  induction n with
+  | zero => simp
+  | succ n ih =>
+    rw [List.range_succ, List.flatMap_append, List.count_append, ih]
+    by_cases h1 : a < n
+    · have h2 : ¬ n = a := by omega
+      have h3 : a < n + 1 := by omega
+      simp [h1, h2, h3, List.count_replicate]
+    · by_cases h2 : n = a
+      · subst h2
+        simp
+      · have h3 : ¬ a < n + 1 := by omega
+        simp [h1, h2, h3, List.count_replicate]
+
+/-- the segments of the result of `converse`, up to the order inside each segment -/
+theorem converse_segs_count (B : Backend) (hB : B.Lawful) (r : IC FinFun) (hr : r.wf = true)
+    (i j : Nat) :
+    ((splitSegs ((List.range r.values.target).map (fun v => r.values.table.count v))
+        (converseValues B r)).getD j []).count i = (r.segs.getD i []).count j := by
+  obtain ⟨hv, _, hvw⟩ := wf_unpack' r hr
+  have hul := unsorted_length r hv
+  have hperm := hB.argsort_perm r.values.table
+  set u := repeatP r.sources.table (List.range r.len) with hu
+  set vals := r.values.table with hvals
+  -- the pair list in the order chosen by `argsort`
+  set l : List (Nat × Nat) := (B.argsort vals).map (fun p => (u.getD p 0, vals.getD p 0)) with hl
+  have hlperm : l.Perm (u.zip vals) := by
+    rw [← range_map_getD_pair u vals vals.length hul rfl]
+    exact hperm.map _
+  have hfst : converseValues B r = l.map (·.1) := by
+    rw [hl, List.map_map]
+    rfl
+  have hsnd : l.map (·.2) = (B.argsort vals).map (fun p => vals.getD p 0) := by
+    simp [hl, List.map_map, Function.comp_def]
+  have hsorted : (l.map (·.2)).Pairwise (· ≤ ·) := by
+    rw [hsnd]; exact hB.argsort_sorted vals
+  have hsndperm : (l.map (·.2)).Perm vals := by
+    have := (hlperm.map (·.2))
+    rwa [List.map_snd_zip (Nat.le_of_eq hul.symm)] at this
+  have hcounts : (List.range r.values.target).map (fun v => vals.count v) =
+      (List.range' 0 r.values.target).map
+        (fun j => (l.filter (fun x => x.2 = j)).length) := by
+    rw [List.range_eq_range']
+    apply List.map_congr_left
+    intro v _
+    rw [length_filter_key (·.2) l v, hsndperm.count_eq]
+  rw [hcounts, hfst, splitSegs_map, splitSegs_sorted (·.2) _ 0 l hsorted (fun _ _ => Nat.zero_le _)]
+  by_cases hj : j < r.values.target
+  · rw [List.getD_eq_getElem?_getD, List.getElem?_map, List.getElem?_map,
+      ← List.range_eq_range', List.getElem?_range hj]
+    simp only [Option.map_some, Option.getD_some]
+    rw [((hlperm.filter _).map _).count_eq, count_filter_map_fst]
+    have h1 := IC.segs_map_length r hv
+    have h2 := IC.segs_flatten r hv
+    have h3 := IC.segs_length r
+    have := count_pairs r.segs 0 i j
+    rw [h1, h2, h3, ← List.range_eq_range'] at this
+    simpa using this
+  · rw [List.getD_eq_getElem?_getD, List.getElem?_eq_none (by simp; omega)]
+    simp only [Option.getD_none, List.count_nil]
+    symm
+    rw [List.count_eq_zero]
+    intro hmem
+    apply hj
+    apply hvw
+    rw [← IC.segs_flatten r hv, List.mem_flatten]
+    refine ⟨r.segs.getD i [], ?_, hmem⟩
+    rw [List.getD_eq_getElem?_getD] at hmem ⊢
+    cases h : r.segs[i]? with
+    | none => rw [h] at hmem; simp at hmem
+    | some seg => exact List.mem_of_getElem? h
+
+/-- **`converse`** returns for every well-formed relation `r` (segment `i` lists the `j` related
+    to `i`) the converse relation: a well-formed segmented array with one segment per possible
+    value `j`, in which `i` occurs exactly as often as `j` occurs in segment `i` of `r`.
+    Equivalently every segment is a permutation of the increasing list (with multiplicity) of the
+    `i` whose segment contains `j`; the order inside a segment depends on how `argsort` breaks
+    ties and is not determined by the array contract. -/
+theorem converse_spec (B : Backend) (hB : B.Lawful) (r : IC FinFun) (hr : r.wf = true) :
+    ∃ c, converse B r = .ok c ∧ c.wf = true ∧ c.len = r.values.target ∧
+      c.values.target = r.len ∧ c.values.table.length = r.values.table.length ∧
+      (∀ i j, (c.segs.getD j []).count i = (r.segs.getD i []).count j) ∧
+      (∀ j, (c.segs.getD j []).Perm
+        ((List.range r.len).flatMap (fun i => List.replicate ((r.segs.getD i []).count j) i))) := by
+  obtain ⟨hv, _, hvw⟩ := wf_unpack' r hr
+  have hcount := converse_segs_count B hB r hr
+  refine ⟨_, converse_eq B hB r hr, ?_, ?_, rfl, ?_, hcount, ?_⟩
+  · apply wf_pack
+    · apply IC.mk_valid
+      · simp only [sum_bincount_of_lt _ _ hvw]
+      · simp only [sum_bincount_of_lt _ _ hvw]
+        simp [converseValues, (hB.argsort_perm r.values.table).length_eq]
+    · intro x hx
+      obtain ⟨v, _, rfl⟩ := List.mem_map.1 hx
+      exact Nat.lt_succ_of_le List.count_le_length
+    · exact converseValues_lt B hB r hv
+  · simp [IC.len, FinFun.source]
+  · simp [converseValues, (hB.argsort_perm r.values.table).length_eq]
+  · intro j
+    rw [List.perm_iff_count]
+    intro i
+    rw [count_flatMap_replicate]
+    show ((splitSegs _ _).getD j []).count i = _
+    rw [hcount i j]
+    by_cases hi : i < r.len
+    · simp [hi]
+    · rw [if_neg hi, List.getD_eq_getElem?_getD,
+        List.getElem?_eq_none (by rw [IC.segs_length]; omega)]
+      rfl
+
+example : (⟨⟨[2, 0, 3], 6⟩, ⟨[1, 3, 0, 1, 1], 4⟩⟩ : IC FinFun).wf = true ∧
+    (⟨⟨[2, 0, 3], 6⟩, ⟨[1, 3, 0, 1, 1], 4⟩⟩ : IC FinFun).segs = [[1, 3], [], [0, 1, 1]] := by
+  decide
+
 end OH.Graph
